@@ -69,7 +69,8 @@ def _sites(tier):
         "assert 1 == snapshot([1])", "assert [1] == snapshot(1)", "assert 'a' == snapshot(b'a')",
     )]
     sites += [{"st": s, "n": []} for s in (
-        "for x in (1, 8, 2):\n        assert x <= snapshot(5)", "for x in (1, 2, 1):\n        assert x in snapshot([3])",
+        "for x in (1, 8, 2):\n        assert x <= snapshot(5)", "for x in (3, 1, 2):\n        assert x >= snapshot()",
+        "for x in (1, 3, 2):\n        assert x <= snapshot()", "s = snapshot()\n    for x in (2, 3, 1):\n        assert x <= s['k']\n        assert x >= s['j']", "for x in (1, 2, 1):\n        assert x in snapshot([3])",
         "s = snapshot()\n    assert s['a'] == 1\n    assert 2 in s['b']\n    assert 3 <= s['c']",
         "s = snapshot({'a': 1, 'z': 0})\n    assert s['a'] == 2\n    assert s['b']['c'] == 3",
     )]
